@@ -277,4 +277,104 @@ theorem deserializeE_erase (p : GraphE) :
     simp only [dropX] at h
     simp only [← h, WorldE.core]
 
+/-! ### functions and models -/
+
+theorem deserFInputsE_erase (vt : List (Name × Info × SS)) : ∀ (ns : List Name) (st : Store) (x : Ext),
+    (deserFInputsE st x vt ns).1 = (deserFInputs st (eraseVT vt) ns).1 ∧
+    (deserFInputsE st x vt ns).2.2 = (deserFInputs st (eraseVT vt) ns).2
+  | [], _, _ => ⟨rfl, rfl⟩
+  | n :: ns, st, x => by
+    simp only [deserFInputsE, deserFInputs]
+    obtain ⟨a, b⟩ := deserFInputsE_erase vt ns (newNamed st (eraseVT vt) n) (x.newNamed vt [] st.nv n)
+    exact ⟨a, by rw [b]⟩
+
+theorem FuncE.erase_fields (f : FuncE) : f.erase.id = f.id ∧ f.erase.inputs = f.inputs ∧ f.erase.outputs = f.outputs ∧
+    f.erase.vinfo = f.vinfo.map VInfoE.erase ∧ f.erase.nodes = eraseNs f.nodes := ⟨rfl, rfl, rfl, rfl, rfl⟩
+
+theorem deserFunctionE_erase (f : FuncE) (st : Store) (x : Ext) :
+    dropX (deserFunctionE st x f) = deserFunction st f.erase := by
+  simp only [deserFunctionE, deserFunction, FuncE.erase, ← eraseVT_vinfoTableE]
+  obtain ⟨a, b⟩ := deserFInputsE_erase (vinfoTableE f.vinfo) f.inputs st x
+  rw [← a, ← b]
+  generalize deserFInputsE st x (vinfoTableE f.vinfo) f.inputs = r1
+  obtain ⟨st1, x1, ins⟩ := r1
+  simp only
+  have h2 := declareNodesE_erase (vinfoTableE f.vinfo) [] f.nodes st1 x1 (finputTable f.inputs ins)
+  cases hd : declareNodesE st1 x1 (finputTable f.inputs ins) (vinfoTableE f.vinfo) [] f.nodes with
+  | error e =>
+    rw [hd] at h2
+    simp only [dropX] at h2
+    simp only [← h2, dropX]
+  | ok r2 =>
+    obtain ⟨st2, x2, tbl2⟩ := r2
+    rw [hd] at h2
+    simp only [dropX] at h2
+    simp only [← h2]
+    have h3 := deserNodesE_erase f.nodes st2 x2 tbl2 [] (vinfoTableE f.vinfo) []
+    cases hn : deserNodesE st2 x2 tbl2 [] (vinfoTableE f.vinfo) [] f.nodes with
+    | error e =>
+      rw [hn] at h3
+      simp only [dropX] at h3
+      simp only [← h3, dropX]
+    | ok r3 =>
+      obtain ⟨st3, x3, tbl3, ns⟩ := r3
+      rw [hn] at h3
+      simp only [dropX] at h3
+      simp only [← h3]
+      cases ho : deserFOutputs tbl3 f.outputs with
+      | error e => simp only [dropX]
+      | ok outs => simp only [dropX]
+
+/-- projection for the functions dict -/
+def dropXF : Except Err (Store × Ext × List (FId × GraphT)) → Except Err (Store × List (FId × GraphT))
+  | .ok (st, _, d) => .ok (st, d)
+  | .error e => .error e
+
+theorem deserFuncsE_erase : ∀ (fs : List FuncE) (st : Store) (x : Ext) (d : List (FId × GraphT)),
+    dropXF (deserFuncsE st x d fs) = deserFuncs st d (fs.map FuncE.erase)
+  | [], _, _, _ => rfl
+  | f :: fs, st, x, d => by
+    simp only [deserFuncsE, List.map_cons, deserFuncs]
+    have h1 := deserFunctionE_erase f st x
+    cases hd : deserFunctionE st x f with
+    | error e =>
+      rw [hd] at h1
+      simp only [dropX] at h1
+      simp only [← h1, dropXF]
+    | ok r =>
+      obtain ⟨st1, x1, g⟩ := r
+      rw [hd] at h1
+      simp only [dropX] at h1
+      simp only [← h1]
+      exact deserFuncsE_erase fs st1 x1 _
+
+/-- **erasure for models with functions** -/
+theorem deserializeME_erase (p : ModelE) :
+    (match deserializeME p with
+      | .ok w => deserializeM (eraseM p) = .ok w.core
+      | .error e => deserializeM (eraseM p) = .error e) := by
+  simp only [deserializeME, deserializeM, eraseM]
+  have h1 := deserGraphE_erase p.graph {} {} []
+  cases hd : deserGraphE {} {} [] p.graph with
+  | error e =>
+    rw [hd] at h1
+    simp only [dropX] at h1
+    simp only [← h1]
+  | ok r =>
+    obtain ⟨st, x, g⟩ := r
+    rw [hd] at h1
+    simp only [dropX] at h1
+    simp only [← h1]
+    have h2 := deserFuncsE_erase p.funcs st x []
+    cases hf : deserFuncsE st x [] p.funcs with
+    | error e =>
+      rw [hf] at h2
+      simp only [dropXF] at h2
+      simp only [← h2]
+    | ok r2 =>
+      obtain ⟨st1, x1, fs⟩ := r2
+      rw [hf] at h2
+      simp only [dropXF] at h2
+      simp only [← h2, MWorldE.core]
+
 end IrVerif.Scope
